@@ -45,8 +45,9 @@ def colDump (c : SColl) : String :=
   (encTyp c.typ).toStr ++ " " ++
   (Sx.list (c.col.map (fun row => encResView (c.soft row).view))).toStr
 
-def stepCol (c : SColl) (args : List Sx) : SColl × String × String × Bool :=
+partial def stepCol (c : SColl) (args : List Sx) : SColl × String × String × Bool :=
   match args with
+  | .atom "quiet" :: rest => let (c', _, _, _) := stepCol c rest; (c', "-", "-", true)
   | [.atom "reset", t] =>
     let c' : SColl := { typ := decTyp t, col := [] }
     (c', colDump c', "-", true)
